@@ -5,8 +5,7 @@
   1558-1569) and `$expr` in the query matcher (filtering.py:92-96).
 
   `none : Option Val` is the Python `KeyError` ("missing"): *any* KeyError, whether it comes from
-  `get_value_by_dot`, from `values['if']` on a `$cond` document without that key, or from
-  `$arrayElemAt` past the end — the code cannot tell them apart either.
+  `get_value_by_dot` or from `$arrayElemAt` past the end — the code cannot tell them apart either.
 
   Structural recursion over the expression `Val`.  A handler that parses its whole argument
   (`$abs: e`, `$not: e`, `$year: e`, …) is run by the item loop `evalDoc` (so that the call is on a
@@ -34,10 +33,21 @@ def Ctx.bindAll (c : Ctx) : Fields → Ctx
   | [] => c
   | (k, v) :: r => (c.bind k v).bindAll r
 
-/-- `_parse_basic_expression` on a string (aggregate.py:309-317) -/
+/-- the system variables that `_Parser` does not bind (aggregate.py `_SYSTEM_VARIABLES`): using
+    one of them is a KeyError ("missing"), `$$REMOVE` included -/
+def systemVars : List String :=
+  ["NOW", "CLUSTER_TIME", "REMOVE", "DESCEND", "PRUNE", "KEEP", "SEARCH_META", "USER_ROLES"]
+
+/-- `'$$name.path'`: a name that is neither bound nor a system variable is an OperationFailure
+    ("Use of undefined variable") -/
+def evalVar (c : Ctx) (parts : List String) : R (Option Val) :=
+  if !(dhas (parts.headD "") c.env) && !(systemVars.contains (parts.headD "")) then .error .opFail
+  else getDotGen parts (.doc c.env)
+
+/-- `_parse_basic_expression` on a string (aggregate.py:330-347) -/
 def evalBasic (c : Ctx) (s : String) : R (Option Val) :=
   match strKind s with
-  | .var r => getDotGen (splitDotsChars r []) (.doc c.env)
+  | .var r => evalVar c (splitDotsChars r [])
   | .field r => getDotGen (splitDotsChars r []) c.root
   | .lit => .ok (some (.str s))
 
@@ -83,6 +93,8 @@ def applyWhole (ign : Bool) (k : String) (r : Option Val) : R (Option Val) :=
     match r with
     | none =>
       if k = "$toString" then .ok (some .null)
+      else if k = "$toLower" || k = "$toUpper" then .ok (some (.str ""))   -- `_parse_or_nothing`
+      else if datePartOps.contains k then .ok (some .null)                 -- `_parse_or_nothing`
       else if k = "$concatArrays" then .ok (if ign then some .null else none)  -- `parse_many([value])`
       else .ok none                                  -- the KeyError propagates
     | some v =>
@@ -105,8 +117,6 @@ def applyList (k : String) (vals : List Val) : R (Option Val) :=
   if k = "$add" || k = "$multiply" then (naryArith k vals).map some
   else if binaryArithOps.contains k then
     (match vals with | [a, b] => (binaryArith k a b).map some | _ => .error .opFail)
-  else if comparisonOps.contains k then
-    (match vals with | [a, b] => (compareOp k a b).map some | _ => .error .other)
   else if k = "$arrayElemAt" then
     (match vals with | [a, i] => arrayElemAtOp a i | _ => .error .valueErr)
   else if groupingOps.contains k then
@@ -119,13 +129,19 @@ def applyList (k : String) (vals : List Val) : R (Option Val) :=
     (match vals with | [s, f, l] => (substrOp s f l).map some | _ => .error .opFail)
   else if k = "$strcasecmp" then
     (match vals with | [a, b] => (strcasecmpOp a b).map some | _ => .error .opFail)
-  else if k = "$in" then
-    (match vals with | [x, a] => (inOp x a).map some | _ => .error .valueErr)
   else unmodelled
 
 /-- which list handlers use `parse_many` (missing → None under `ignore_missing_keys`) -/
 def usesParseMany (k : String) : Bool :=
   arithmeticOps.contains k || groupingOps.contains k || k = "$concat" || k = "$concatArrays"
+
+/-- which list handlers read every operand with `_parse_or_nothing` and take NOTHING as None,
+    whatever `ignore_missing_keys` says -/
+def usesParseOrNothing (k : String) : Bool := k = "$arrayElemAt" || k = "$strcasecmp"
+
+/-- is a missing operand of list handler `k` read as null? -/
+def nullOnMissing (ign : Bool) (k : String) : Bool :=
+  (usesParseMany k && ign) || usesParseOrNothing k
 
 /-- the argument-count checks that come before any parsing -/
 def arityErr (k : String) (n : Nat) : Option Err :=
@@ -136,12 +152,13 @@ def arityErr (k : String) (n : Nat) : Option Err :=
   else if k = "$substr" && n ≠ 3 then some .opFail
   else if k = "$slice" && (n < 2 || n > 3) then some .opFail
   else if k = "$cond" && n ≠ 3 then some .valueErr
+  else if k = "$ifNull" && n < 2 then some .opFail                    -- needs at least two arguments
   else if (k = "$first" || k = "$last") then some .typeErr            -- a generator is not subscriptable
   else none
 
 def listOps : List String :=
-  arithmeticOps ++ comparisonOps ++ groupingOps ++
-    ["$arrayElemAt", "$concat", "$concatArrays", "$split", "$substr", "$strcasecmp", "$in"]
+  arithmeticOps ++ groupingOps ++
+    ["$arrayElemAt", "$concat", "$concatArrays", "$split", "$substr", "$strcasecmp"]
 
 /-- a list handler given something that is not a list, a document handler given something that
     is not a document (aggregate.py: the `isinstance` checks, `len()`, unpacking, iteration) -/
@@ -152,27 +169,23 @@ def argShapeErr (k : String) (v : Val) : R (Option Val) :=
   else if k = "$cond" then .error .other                              -- UnboundLocalError
   else iterErr v
 
-/-- list comprehension over the items of `$map`: the first KeyError propagates -/
-def mapItems (f : Val → R (Option Val)) : List Val → R (Option (List Val))
-  | [] => .ok (some [])
+/-- list comprehension over the items of `$map`: `_parse_or_nothing` of `in` per item, a missing
+    value (NOTHING) giving a null element -/
+def mapItems (f : Val → R (Option Val)) : List Val → R (List Val)
+  | [] => .ok []
   | x :: r => do
-    match ← f x with
-    | none => pure none
-    | some y =>
-      match ← mapItems f r with
-      | none => pure none
-      | some ys => pure (some (y :: ys))
+    let y ← f x
+    let ys ← mapItems f r
+    pure (y.getD .null :: ys)
 
-/-- list comprehension of `$filter`: keeps the items whose condition is *Python*-truthy -/
-def filterItems (f : Val → R (Option Val)) : List Val → R (Option (List Val))
-  | [] => .ok (some [])
+/-- list comprehension of `$filter`: keeps the items whose condition is true by
+    `_parse_to_bool` (`mongodb_to_bool`, a KeyError counting as false) -/
+def filterItems (f : Val → R (Option Val)) : List Val → R (List Val)
+  | [] => .ok []
   | x :: r => do
-    match ← f x with
-    | none => pure none
-    | some y =>
-      match ← filterItems f r with
-      | none => pure none
-      | some ys => pure (some (if y.truthy then x :: ys else ys))
+    let y ← f x
+    let ys ← filterItems f r
+    pure (if toBoolOpt y then x :: ys else ys)
 
 def asName (gs : Fields) : Option String :=
   match dget "as" gs with
@@ -219,7 +232,7 @@ mutual
       | some e => .error e
       | none =>
         if listOps.contains k then do
-          match ← evalList c (usesParseMany k && c.ign) xs with
+          match ← evalList c (nullOnMissing c.ign k) xs with
           | none => if k = "$split" then pure (some .null) else pure none
           | some vals => applyList k vals
         else if k = "$and" then do
@@ -233,12 +246,21 @@ mutual
           match ← evalHead c xs with
           | none => pure none
           | some a => (sliceOp a xs.tail).map some
+        else if comparisonOps.contains k then do
+          match ← evalAll c xs with                    -- `_parse_or_nothing` of both operands
+          | [a, b] => (compareOpt k a b).map some
+          | _ => .error .other
+        else if k = "$in" then do
+          match ← evalAll c xs with                    -- `_parse_or_nothing` of both operands
+          | [x, a] => (inOpt x a).map some
+          | _ => .error .valueErr
         else if k = "$setUnion" then evalUnion c xs []
         else if k = "$setEquals" then evalSets c xs []
         else argShapeErr k (.arr xs)
     | .doc gs =>
       if k = "$let" then
         if !(dhas "vars" gs) || !(dhas "in" gs) then .error .opFail
+        else if gs.any (fun kv => !(["vars", "in"].contains kv.1)) then .error .opFail
         else match dget "vars" gs with
           | some (.doc _) => do
             match ← evalVarsAt c gs with
@@ -256,23 +278,24 @@ mutual
             | none => unmodelled
             | some name =>
               let r ← mapItems (fun item => evalAt (c.bind name item) "in" gs) items
-              pure (r.map .arr)
+              pure (some (.arr r))
           | some _ => .error .opFail
       else if k = "$filter" then
         if gs.any (fun kv => !(["input", "cond", "as"].contains kv.1)) then .error .opFail
         else if !(dhas "input" gs) || !(dhas "cond" gs) then .error .opFail
         else do
           match ← evalAt c "input" gs with
-          | none => pure none
+          | none | some .null => pure (some .null)
           | some (.arr items) =>
             match asName gs with
             | none => unmodelled
             | some name =>
               let r ← filterItems (fun item => evalAt (c.bind name item) "cond" gs) items
-              pure (r.map .arr)
+              pure (some (.arr r))
           | some v => iterErr v
       else if k = "$cond" then
-        if !(dhas "if" gs && dhas "then" gs && dhas "else" gs) then .ok none   -- `values['if']` …
+        if !(dhas "if" gs && dhas "then" gs && dhas "else" gs) then .error .opFail
+        else if gs.any (fun kv => !(["if", "then", "else"].contains kv.1)) then .error .opFail
         else do
           if toBoolOpt (← evalAt c "if" gs) then evalAt c "then" gs else evalAt c "else" gs
       else if k = "$switch" then
@@ -301,7 +324,8 @@ mutual
         | some vs => pure (some (v :: vs))
   termination_by structural x => x
 
-  /-- every operand parsed, each KeyError kept (`$and`) -/
+  /-- every operand parsed, each KeyError kept (`$and`; comparisons and `$in`:
+      `_parse_or_nothing` of both operands) -/
   def evalAll (c : Ctx) : List Val → R (List (Option Val))
     | [] => .ok []
     | x :: r => do
@@ -322,7 +346,7 @@ mutual
     | _ => .error .valueErr
   termination_by structural x => x
 
-  /-- `$ifNull`: the last item is the fallback (aggregate.py:953-967) -/
+  /-- `$ifNull` on two or more operands: the last item is the fallback (aggregate.py:1008-1026) -/
   def evalIfNull (c : Ctx) : List Val → R (Option Val)
     | [] => .error .indexErr
     | [f] => eval c f
@@ -423,12 +447,11 @@ def projectField (e d : Val) : R (Option Val) :=
 /-- the computed field `r` of `{$addFields: {r: e}}` (aggregate.py:1558-1569) -/
 def addFieldsField (e d : Val) : R (Option Val) := evalExpr d e
 
-/-- `{$expr: e}` in the query matcher (filtering.py:92-96): Python truthiness of the parsed value;
-    a KeyError is not caught and leaves `find` -/
+/-- `{$expr: e}` in the query matcher (filtering.py:92-103): `mongodb_to_bool` of the parsed
+    value; a KeyError (the value is missing) is caught and counts as false -/
 def exprFilter (e d : Val) : R Bool :=
   match evalExpr d e with
-  | .ok (some v) => .ok v.truthy
-  | .ok none => .error .keyErr
+  | .ok r => .ok (toBoolOpt r)
   | .error err => .error err
 
 end MongoModel.Expr
